@@ -9,6 +9,7 @@ generated side-effect-free programs are executed in-process (an internal panic i
 import glob
 import json
 import os
+import re
 
 import lexrun
 import lextable
@@ -161,13 +162,24 @@ def main(ck):
         if "case" in rp and "hex" in rp["case"]:
             cases = [rp["case"]]
     else:
-        # (iii) exhaustive short sources over a token alphabet
-        for a in ALPHA:
-            cases.append({"hex": a.hex(), "mode": "plain", "origin": "alpha1", "mut": "-", "run": False})
-            for b in ALPHA:
-                cases.append({"hex": (a + b" " + b).hex(), "mode": "plain", "origin": "alpha2", "mut": "-", "run": False})
-        trip = [(a, b, c) for a in ALPHA for b in ALPHA for c in ALPHA]
-        for a, b, c in (trip if not quick else rng.sample(trip, 1500)):
+        # (iii) exhaustive short sources over a token alphabet (+ every keyword of the token table), executed too
+        kw_lo, kw_hi = tbl["consts"]["KEYWORD_START"], tbl["consts"]["KEYWORD_END"]
+        alpha = list(ALPHA)
+        for ty, hx in tbl["defs"]:
+            lit = bytes.fromhex(hx)
+            if kw_lo < ty < kw_hi and lit not in alpha and lit.isascii():
+                alpha.append(lit)
+        alpha += [b"instanceof", b"$a instanceof", b"endif;", b"else:", b"if ($a):", b"endwhile;", b"@end"]
+        ck.cov["alpha_tokens"] = len(alpha)
+        for a in alpha:
+            cases.append({"hex": a.hex(), "mode": "plain", "origin": "alpha1", "mut": "-", "run": True})
+            cases.append({"hex": (b"<?php " + a).hex(), "mode": "template", "origin": "alpha1", "mut": "-", "run": True})
+            for b in (alpha if not quick else rng.sample(alpha, 30)):
+                m = "template" if rng.random() < 0.25 else "plain"
+                cases.append({"hex": ((b"<?php " if m == "template" else b"") + a + b" " + b).hex(), "mode": m, "origin": "alpha2",
+                              "mut": "-", "run": True})
+        trip = [(a, b, c) for a in ALPHA for b in ALPHA for c in ALPHA] if not quick else [tuple(rng.choice(alpha) for _ in range(3)) for _ in range(1500)]
+        for a, b, c in trip:
             cases.append({"hex": (a + b" " + b + b" " + c).hex(), "mode": "plain", "origin": "alpha3", "mut": "-", "run": False})
         # tails that end a source in the middle of a multi-byte look-ahead or of an opening construct
         tails = [b"\xe3", b"\xe3\x80", b"\xe3\x80\x80", b"$", b"\\", b"'", b'"', b"`", b"/", b"/*", b"/* x *", b"//", b"<", b"<<", b"<<<",
@@ -178,6 +190,18 @@ def main(ck):
                 for m in ("plain", "template"):
                     src = (b"<?php " if m == "template" else b"") + base + t
                     cases.append({"hex": src.hex(), "mode": m, "origin": "tail", "mut": "-", "run": False})
+        # nesting depth: openers repeated n times (with and without their closers), both modes.  The parser must answer
+        # with a program or a diagnostic — a worker death (fatal error: stack overflow) or a timeout is a violation.
+        openers = [(b"(", b")"), (b"[", b"]"), (b"!", b""), (b"-", b""), (b"~", b""), (b"(int)", b""), (b"{", b"}"), (b"f(", b")"),
+                   (b"$a?", b":1"), (b"if(1)", b""), (b"[1,", b"]"), (b"$a=", b""), (b"@", b""), (b"new f(", b")"), (b"fn() => ", b"")]
+        for op, cl in openers:
+            for n in ((1500, 20000) if quick else (1500, 100000, 1000000)):
+                for closed in (True, False):
+                    body = b"$x = " + op * n + b"1" + (cl * n if closed else b"") + b";"
+                    for m in ("plain", "template"):
+                        src = (b"<?php " if m == "template" else b"") + body
+                        cases.append({"hex": src.hex(), "mode": m, "origin": "depth", "mut": op.decode() + ("" if closed else ":open"),
+                                      "run": False})
         # (i) corpus files: first pass to get the token spans
         files = sorted(glob.glob(os.path.join(vcheck.REPO, "tests", "**", "*.php"), recursive=True) +
                        glob.glob(os.path.join(vcheck.REPO, "tests", "**", "*.zy"), recursive=True) +
@@ -194,7 +218,10 @@ def main(ck):
             bases.append((data, "template" if f.endswith(".php") else "plain", "corpus", False))
         # (ii) grammar-generated programs (safe to execute)
         for _ in range(120 if quick else 1500):
-            bases.append((gen_program(rng).encode(), "plain", "generated", True))
+            if rng.random() < 0.25:
+                bases.append((b"<html>\n<?php\n" + gen_program(rng).encode() + b"?>\n</html>\n", "template", "generated-t", True))
+            else:
+                bases.append((gen_program(rng).encode(), "plain", "generated", True))
         first = lexrun.run(binary, [{"hex": d.hex(), "mode": m} for d, m, _, _ in bases])
         for (data, mode, origin, runnable), o in zip(bases, first):
             cases.append({"hex": data.hex(), "mode": mode, "origin": origin, "mut": "none", "run": runnable})
@@ -249,6 +276,9 @@ def main(ck):
             stats["parse-ok"] += 1
         elif p == "error":
             stats["parse-error"] += 1
+            if not o.get("pline"):
+                rep["clause"] = "a parse diagnostic without a position"
+                ck.violation("error-without-position:%s" % re.sub(r"[^A-Za-z\u4e00-\u9fff]+", "", (o.get("perr") or ""))[:24], rep)
         r = o.get("run")
         if r:
             stats["run-" + r] = stats.get("run-" + r, 0) + 1
@@ -256,6 +286,55 @@ def main(ck):
                 rep["clause"] = "the program was accepted and running it crashed inside the interpreter"
                 site = (o.get("rpanic") or "").split(" @ ")[-1]
                 ck.violation("accepted-crash:%s:%s" % (panic_class(o.get("rpanic")), site), rep)
+
+    # ---- time bound: parse time must grow at most (about) linearly with the input length.  Each shape is parsed at
+    #      length n and 4n (three times each, minimum taken: robust against a loaded machine); a ratio above 9 (a
+    #      quadratic step gives 16) with a non-negligible absolute time is a violation.
+    if not ck.replay:
+        shapes = {
+            "sum": lambda n: b"$x = 1" + b" + 1" * n + b";",
+            "array": lambda n: b"$x = [" + b"1, " * n + b"1];",
+            "statements": lambda n: b"$x = 1;\n" * n,
+            "parens-flat": lambda n: b"$x = (1)" + b" + (1)" * n + b";",
+            "concat": lambda n: b"$x = 'a'" + b" . 'b'" * n + b";",
+            "calls": lambda n: b"f(1);" * n,
+            "string": lambda n: b"$x = '" + b"ab" * n + b"';",
+            "comment": lambda n: b"// " + b"ab" * n + b"\n$x = 1;",
+            "blank-lines": lambda n: b"\n" * n + b"$x = 1;",
+            "interpolation": lambda n: b'$x = "' + b"$a " * n + b'";',
+            "if-chain": lambda n: b"if ($a) { $b = 1; } " * n,
+            "alt-syntax": lambda n: b"<?php " + b"if ($a): $b = 1; endif; " * n,
+            "html": lambda n: b"<p>x</p>\n" * n + b"<?php $x = 1;",
+        }
+        n0 = 4000 if quick else 20000
+        treq, tkey = [], []
+        slow = {"alt-syntax": 4, "interpolation": 4}      # shapes with a large constant: a quarter of the length suffices
+        for name, f in sorted(shapes.items()):
+            for n in (n0, 4 * n0):
+                src = f(n // slow.get(name, 1))
+                for rep in range(3):
+                    treq.append({"hex": src.hex(), "mode": "template" if name in ("alt-syntax", "html") else "plain", "parse": True,
+                                 "run": False, "budget_ms": 120000})
+                    tkey.append((name, n))
+        touts = lexrun.run(binary, treq, nproc=13)
+        best = {}
+        for k, o in zip(tkey, touts):
+            if o.get("pms") is not None and o.get("parse") in ("ok", "error"):
+                best[k] = min(best.get(k, 1e18), o["pms"])
+            else:
+                best.setdefault(k, None)
+        ratios = {}
+        for name in sorted(shapes):
+            a, b = best.get((name, n0)), best.get((name, 4 * n0))
+            if a is None or b is None:
+                ck.violation("time:%s:no-answer" % name, {"case": {"shape": name, "n": n0}, "clause": "no parse answer for the timing shape"})
+                continue
+            ratios[name] = [round(a, 2), round(b, 2), round(b / max(a, 0.5), 2)]
+            if b / max(a, 0.5) > 9.0 and b > 200.0:
+                ck.violation("time:%s" % name, {"case": {"shape": name, "n": n0, "text": shapes[name](3).decode("latin-1")},
+                                               "impl_out": {"ms_n": a, "ms_4n": b},
+                                               "clause": "parse time grows faster than linearly: %.0f ms at n, %.0f ms at 4n" % (a, b)})
+        ck.cov["time_ms_n_4n_ratio"] = ratios
 
     # ---- tie: lexer model vs real lexer on (a size-limited part of) this distribution
     tie = [i for i, c in enumerate(cases) if len(c["hex"]) <= (1000 if quick else 4000) and not outs[i].get("dead")
